@@ -251,6 +251,10 @@ def _defs(ctx: Ctx, item):
             data = b"".join(f[1][2:] if i == 0 else f[1][1:] for i, f in enumerate(frames))
             res, _ = check_frames(frames, data, None, d.pgn, src, m.destination if ((d.pgn >> 8) & 0xFF) < 240 else 255, prio, f"C03|defs|{fmt}")
             out = [(b, w, case) for b, w in res]
+            # the first frame announces the payload length of the DEFINITION (where the database fixes it), not whatever the codec emitted
+            announced = frames[0][1][1] if frames and len(frames[0][1]) > 1 else None
+            if d.length is not None and d.fixed_layout and announced is not None and announced != d.length:
+                out.append((f"C03|defs|{fmt}|announced-length|{d.key}", f"first frame announces {announced} bytes ({len(frames)} frames), the definition's payload has {d.length}", case))
             dec = NMEA2000Decoder()
             got = []
             for p in pk:
@@ -325,6 +329,8 @@ def _defs(ctx: Ctx, item):
                          f"{got[-1].id if got and got[-1] is not None else None}", case)]
             out = []
             for f, a, g in zip(d.fields, fields, got[-1].fields):
+                if a["expect"][0] == "raw" and f.type == "LOOKUP" and g.raw_value != a["expect"][1]:
+                    out.append((f"C03|built-lookup|{fmt}|{d.key}/{f.id}", f"{f.id}: sent {a['value']!r} / {a['raw_value']!r} (code {a['expect'][1]}), received {g.value!r} / {g.raw_value!r}", case))
                 if a["expect"][0] == "num" and a.get("target") is not None and f.type in ("NUMBER", "PGN", "DURATION") and not a.get("tol"):
                     if g.value is None or abs(Fraction(g.value) - a["target"]) > f.res / 2 * (1 + Fraction(1, 10 ** 6)) + abs(a["target"]) * Fraction(1, 10 ** 12):
                         out.append((f"C03|built|{fmt}|value|{d.key}/{f.id}", f"{f.id}: sent {float(a['target'])!r}, received {g.value!r}", case))
